@@ -176,3 +176,60 @@ def random_value(rng, ty):
     if ty[0] == "list":
         return [random_value(rng, ty[1]) for _ in range(rng.choice([0, 0, 1, 2, 3]))]
     raise ValueError(ty)
+
+
+# ------------------------------------------------------------------ random DSL syntaxes (C01, C04, C13, C17 …)
+def random_syntax(rng, allow_ho=True):
+    """-> dict(prims=[(name, tuple-type)], forbidden={(name, i): [names]}, bases=[...])
+    1-3 base types, list types, 2-7 primitives of arity 0-3, at least one constant per base type
+    with probability 0.8 (so unproductive types occur but do not dominate), a higher-order
+    primitive with probability 1/3, 0-3 forbidden entries naming existing primitives
+    (zero-arity children on purpose)."""
+    bases = rng.sample(["int", "bool", "str"], rng.choice([1, 1, 2, 2, 3]))
+    pool = list(bases) + [("list", b) for b in bases if rng.random() < 0.4]
+    prims = []
+    k = 0
+    for b in bases:
+        if rng.random() < 0.8:
+            for _ in range(rng.choice([1, 1, 2])):
+                prims.append((f"c{k}", b))
+                k += 1
+    for t in pool:
+        if not isinstance(t, str) and rng.random() < 0.6:
+            prims.append((f"c{k}", t))
+            k += 1
+    nfun = rng.randint(1, 4)
+    for j in range(nfun):
+        ar = rng.choice([1, 1, 2, 2, 3])
+        ts = [rng.choice(pool) for _ in range(ar)] + [rng.choice(pool)]
+        prims.append((f"f{j}", arrow(*ts)))
+    if allow_ho and rng.random() < 1 / 3:
+        a, b = rng.choice(bases), rng.choice(bases)
+        prims.append(("ho", arrow(arrow(a, b), rng.choice(pool), rng.choice(pool))))
+    rng.shuffle(prims)
+    prims = prims[:7] if len(prims) > 7 else prims
+    forbidden = {}
+    funs = [(n, t) for n, t in prims if not isinstance(t, str) and t[0] == "->"]
+    names = [n for n, _ in prims]
+    for _ in range(rng.choice([0, 0, 1, 1, 2, 3])):
+        if not funs:
+            break
+        n, t = rng.choice(funs)
+        i = rng.randrange(len(args_ret(t)[0]))
+        forbidden.setdefault((n, i), [])
+        c = rng.choice(names)
+        if c not in forbidden[(n, i)]:
+            forbidden[(n, i)].append(c)
+    return {"prims": prims, "forbidden": forbidden, "bases": bases, "pool": pool}
+
+
+def random_request(rng, syn):
+    pool, bases = syn["pool"], syn["bases"]
+    ret = rng.choice(pool)
+    nargs = rng.choice([0, 1, 1, 2, 2, 3])
+    args = [rng.choice(pool) for _ in range(nargs)]
+    if args and rng.random() < 0.25:
+        args[rng.randrange(len(args))] = arrow(rng.choice(bases), rng.choice(bases))
+    if args and rng.random() < 0.25:
+        args[rng.randrange(len(args))] = rng.choice(["unused", ("list", "unused")])
+    return arrow(*args, ret)
